@@ -108,3 +108,21 @@ def char_classifiers(prog, run, rid, which=None):
             continue
         run.ob(rid, "SimpleString::%s agrees with its table for all 256 char values" % name, f.site, not bad, witness={"mismatches (char, folded, table)": bad[:6]} if bad else "256/256",
                what="" if not bad else "e.g. %s(%d) = %s, expected %s" % (name, bad[0][0], bad[0][1], bad[0][2]))
+
+
+def fresh_result_per_repetition(prog, run, rid, sfx=""):
+    """each repetition of the runner's repeat loop runs the registry once on a TestResult constructed inside that loop
+    (C01.R4: verdict per repetition; C02.R1: the per-repetition counts sum to the number of registered tests)"""
+    from cpv.paths import loop_blocks
+    from cpv.expr import render
+    rt = prog.fn("CommandLineTestRunner::runAllTests")
+    run.analysed(rt)
+    loops = loop_blocks(rt)
+    decl = [n for n in rt.walk() if n["k"] == "DeclStmt" and any(d.get("ct") == "TestResult" for d in n.get("decls", []))]
+    run_calls = [c for c in rt.calls() if (prog.callee_name(rt, c) or "") == "TestRegistry::runAllTests"]
+    ok = len(run_calls) == 1 and rt.where_enclosing(run_calls[0])[0] in loops
+    trname = render(rt, rt.args(run_calls[0])[0]) if run_calls else None
+    d_in = [n for n in decl if any(d["name"] == trname for d in n["decls"]) and rt.where_enclosing(n) and rt.where_enclosing(n)[0] in loops]
+    run.ob(rid, "each repetition runs the registry once on a TestResult constructed inside the repetition loop%s" % sfx, rt.site, ok and len(d_in) == 1,
+           witness={"result": trname, "declared_in_loop": len(d_in)}, what="" if ok and len(d_in) == 1 else "counts of earlier repetitions leak into later summaries")
+    return rt, loops
